@@ -219,7 +219,7 @@ theorem Tfdf.unpack_badRules (raw : Bytes) (h1 : 1 ≤ raw.length) (tr : Bool) (
     simp [Tfdf.unpack, hl, idx_ok (show 0 < raw.length by omega), hb, bind, Except.bind, throw, throwThe,
       MonadExceptOf.throw]
 
-theorem Tfdf.unpack_fhp_short (raw : Bytes) (h1 : 1 ≤ raw.length) (h3 : raw.length < 3) (tr : Bool) (n : Nat)
+theorem Tfdf.unpack_fhp_short (raw : Bytes) (h1 : 1 ≤ raw.length) (tr : Bool) (n : Nat) (h3 : raw.length < 3 ∨ n < 3)
     (ft : Option FrameType) (hok : rulesOk (raw[0].toNat / 32 % 8) ft = true)
     (hs : shouldHaveFhp (raw[0].toNat / 32 % 8) tr ft = true) :
     Tfdf.unpack raw tr n ft = .error (.uslp .invalidLen) := by
@@ -233,13 +233,13 @@ theorem Tfdf.unpack_fhp_short (raw : Bytes) (h1 : 1 ≤ raw.length) (h3 : raw.le
     simp [Tfdf.unpack, hl, idx_ok (show 0 < raw.length by omega), hok, hs, h3, bind, Except.bind, pure,
       Except.pure, throw, throwThe, MonadExceptOf.throw]
 
-theorem Tfdf.unpack_fhp (raw : Bytes) (h3 : 3 ≤ raw.length) (tr : Bool) (n : Nat)
+theorem Tfdf.unpack_fhp (raw : Bytes) (h3 : 3 ≤ raw.length) (tr : Bool) (n : Nat) (hn : 3 ≤ n)
     (ft : Option FrameType) (hok : rulesOk (raw[0].toNat / 32 % 8) ft = true)
     (hs : shouldHaveFhp (raw[0].toNat / 32 % 8) tr ft = true) :
     Tfdf.unpack raw tr n ft =
       .ok ⟨raw[0].toNat / 32 % 8, raw[0].toNat % 32, some (raw[1].toNat * 256 + raw[2].toNat), slice raw 3 n⟩ := by
   have hl : ¬ raw.length < 1 := by omega
-  have hl3 : ¬ raw.length < 3 := by omega
+  have hl3 : ¬ (raw.length < 3 ∨ n < 3) := by omega
   cases ft with
   | none =>
     simp [Tfdf.unpack, hl, hl3, idx_ok (show 0 < raw.length by omega), idx_ok (show 1 < raw.length by omega),
@@ -273,9 +273,9 @@ theorem Tfdf.unpack_err (raw : Bytes) (tr : Bool) (n : Nat) (ft : Option FrameTy
       cases hs : shouldHaveFhp (raw[0].toNat / 32 % 8) tr ft with
       | false => rw [Tfdf.unpack_nofhp raw h1 tr n ft hok hs] at h; cases h
       | true =>
-        by_cases h3 : 3 ≤ raw.length
-        · rw [Tfdf.unpack_fhp raw h3 tr n ft hok hs] at h; cases h
-        · rw [Tfdf.unpack_fhp_short raw h1 (by omega) tr n ft hok hs] at h; cases h; exact Or.inl rfl
+        by_cases h3 : 3 ≤ raw.length ∧ 3 ≤ n
+        · rw [Tfdf.unpack_fhp raw h3.1 tr n h3.2 ft hok hs] at h; cases h
+        · rw [Tfdf.unpack_fhp_short raw h1 tr n (by omega) ft hok hs] at h; cases h; exact Or.inl rfl
   · have : raw = [] := by
       cases raw with
       | nil => rfl
